@@ -11,8 +11,8 @@ RULE_F = ("edge/vertex lists (0-18 vertices, 0-65 edges, hub vertices so that de
           "get_edge / get_vertex past the end, out_edges / in_edges, adj / rev through iter() (len / get asserted "
           "consistent), src / dst / incident_vertex, edge_triplet, incident_edges, incident_triplet_ids / _attributes in "
           "both directions, adj-vs-rev same-edge-set verdict. The witnesses in corpus/C15 run first. I = implementation, M = loader model on the C11 container "
-          "model, S = specification read off the rows by find / filter (printed only inside the hypotheses LD.wf, else "
-          "'unspecified'). Deterministic families first: star degrees 0..9 x formats, all format x newline combinations, "
+          "model, S = specification read off the rows by find / filter; '!DatasetError' (must not load) when an end point is "
+          "not a listed vertex; 'unspecified' outside the documented format LD.wf_format. Deterministic families first: star degrees 0..9 x formats, all format x newline combinations, "
           "k parallel edges, k self loops, header-only and zero-byte files, explicit counts, end points out of range, "
           "unsorted / duplicate ids, blank trailing lines, column / field syntax. Non-trivial = inside the hypotheses and "
           "some vertex has in- or out-degree >= 6; distinct by case")
@@ -49,7 +49,8 @@ def run(chk):
     chk.assumptions = [
         "documented input format: the id written on row i of the edge / vertex file is i (ids are used as indices; the "
         "loader stores rows by position and never checks the id)",
-        "every end point of an edge is a listed vertex; an explicit n_vertices, when given, is the number of vertex rows",
+        "an explicit n_vertices, when given, is the number of vertex rows (end points: no assumption - a load that "
+        "returns Ok has all end points inside the adjacency, an edge list with a dangling end point must fail)",
         "a file is one header line plus one line per row (no blank lines)",
         "distances / coordinates are opaque payloads in the theorems (decimal parsing is exercised with exact values k/4)"]
     chk.proofs(extra_targets=["Model/LoaderRun.vo"])
